@@ -742,6 +742,9 @@ func (g *Gen) instr(in ssa.Instruction, st *State) {
 					return
 				}
 			}
+			if p.Loc != nil && g.shared()[p.Loc.Comp] {
+				g.interfere(st)
+			}
 			t := g.load(st, p)
 			g.setVal(x, t, x.Type())
 			g.assume(st, g.wf(g.vals[x].S, x.Type(), g.heapGet(st, "alloc")))
@@ -771,7 +774,15 @@ func (g *Gen) instr(in ssa.Instruction, st *State) {
 	case *ssa.Alloc:
 		g.alloc(x, st)
 	case *ssa.Store:
-		g.storeTo(st, g.val(x.Addr), g.val(x.Val).S)
+		addr := g.val(x.Addr)
+		if addr.Loc != nil && g.shared()[addr.Loc.Comp] {
+			g.interfere(st)
+			prev := st.clone()
+			g.storeTo(st, addr, g.val(x.Val).S)
+			g.checkGuar(prev, st, fmt.Sprintf("store#%d", g.bump("sharedstore")), x.Pos())
+			return
+		}
+		g.storeTo(st, addr, g.val(x.Val).S)
 	case *ssa.FieldAddr:
 		p := g.val(x.X)
 		pt := x.X.Type().Underlying().(*types.Pointer).Elem()
